@@ -171,7 +171,11 @@ def run_shard(spec, tier, seed):
                 rb = cli.run_cli(argsb)
                 if rb.exc is None and os.path.exists(sol):
                     res.count('cli_solution_path_reused')
-            r = cli.run_cli(['solve', inp, '--year', str(year), '--form', '1040', '--solution', sol])
+            # (the same forms the reference run asked for: a filer with an N.C. return asks for the D-400 as well)
+            form_args = []
+            for f_ in p.forms():
+                form_args += ['--form', f_]
+            r = cli.run_cli(['solve', inp, '--year', str(year)] + form_args + ['--solution', sol])
             res.evaluations += 1
             res.count('cli_year_runs')
             # a return that does not solve (an input missing, nobody to ask) still writes what it has - for the year it was solved for
@@ -179,7 +183,7 @@ def run_shard(spec, tier, seed):
             drop = [q for q in sorted(p.answers) if q.startswith('1040.')][:1]
             write_ini(inc, {q: v for q, v in p.answers.items() if q not in drop})
             solp = os.path.join(tmp, 'partial.ini')
-            rp_ = cli.run_cli(['solve', inc, '--year', str(year), '--form', '1040', '--solution', solp])
+            rp_ = cli.run_cli(['solve', inc, '--year', str(year)] + form_args + ['--solution', solp])
             res.evaluations += 1
             if rp_.exc is None and os.path.exists(solp):
                 res.count('cli_partial_solutions_written')
